@@ -534,8 +534,7 @@ def run(ck, facts):
         for n, st in C.with_conditions(C.fn_body(f)):
             if n.get("k") == "mcall" and n.get("m") == "apply" and C.strip(n["recv"]).get("k") == "field" and C.strip(n["recv"]).get("n") == "rename":
                 nren += 1
-                cpp_only = any(kind == "if" and b_ == "t" and any(x.get("k") == "field" and x.get("n") == "is_for_cpp" for x in C.walk(a_)) and
-                               not any(x.get("k") in ("un", "unary") and x.get("op") == "Not" for x in C.walk(a_)) for kind, a_, b_ in st)
+                cpp_only = C.asserted(st, lambda c_: c_.get("k") == "field" and c_.get("n") == "is_for_cpp")     # `if cpp {..}` or after `if !cpp { return .. }`
                 key = "c::formatter::%s/rename-cpp-only#%d" % (f["name"], sum(1 for i in ck.instances if i["rule"] == "R4" and i["key"].startswith("c::formatter::%s/rename-cpp-only" % f["name"])))
                 ck.expect(cpp_only, "R4", key, "under is_for_cpp", "the C formatter applies `rename` outside `if self.is_for_cpp` in %s: a rename whose condition holds for `c` changes some C names (type references) "
                           "but not others (typedefs, file names), so the C output changes and stops compiling" % f["name"], C.loc(f, n.get("ln")))
